@@ -7,15 +7,19 @@ static const char *PNAME[P_NPOL] = {"internal", "calendar", "key", "pubfile", "u
 
 /* signature variants: 0 two chains, first level correction 3; 1 lc 0; 2 lc 1; 3 lc 7; 4 single link lc 254; 5 legacy RFC3161 form (lc 0);
  * 6 legacy RFC3161 form whose first link carries level correction 2 (level must still be 0);
- * 7 legacy RFC3161 form whose record input hash (the document) is SHA-512 while the record's output / first chain input is SHA-256 */
-#define NSIGV 8
+ * 7 legacy RFC3161 form whose record input hash (the document) is SHA-512 while the record's output / first chain input is SHA-256;
+ * 8 first chain of three links: the first without a level correction element, the second and third with corrections 2 and 1 */
+#define NSIGV 9
 static unsigned g_doc_seed_bump;      /* another document, same shape */
 static void make_sig(rsig *s, int variant, int form, const rk_cert *signer) {
 	rs_params p;
-	static const unsigned LC[] = {3, 0, 1, 7, 254, 0, 2, 0};
+	static const unsigned LC[] = {3, 0, 1, 7, 254, 0, 2, 0, 0};
 	rs_default_params(&p);
 	if (variant == 4) { p.nchains = 1; p.nlinks[0] = 1; p.link_desc[0][0] = 1u | (LC[4] << 3); }
-	else {
+	else if (variant == 8) {
+		p.nchains = 2; p.nlinks[0] = 3; p.nlinks[1] = 1; p.chain_alg[1] = RH_SHA256;
+		p.link_desc[0][0] = 0u; p.link_desc[0][1] = 1u | (2u << 3); p.link_desc[0][2] = 0u | (1u << 3); p.link_desc[1][0] = 1;
+	} else {
 		p.nchains = 2; p.nlinks[0] = 2; p.nlinks[1] = 1; p.chain_alg[1] = RH_SHA256;
 		p.link_desc[0][0] = 0u | (LC[variant] << 3); p.link_desc[0][1] = 1 | (1 << 1); p.link_desc[1][0] = 1;
 	}
@@ -251,7 +255,7 @@ static void run(void) {
 	int pol, variant;
 	for (pol = 0; pol < P_NPOL; pol++) for (variant = 0; variant < NSIGV; variant++) {
 		int part;
-		if (!VF_THOROUGH && !(variant == 0 || variant == 5 || ((variant == 6 || variant == 7) && (pol == P_INTERNAL || pol == P_GENERAL)) || ((variant == 4 || variant == 1) && pol == P_INTERNAL) || (variant == 1 && pol == P_GENERAL) || (variant == 2 && pol == P_KEY))) continue;   /* variant 1: the first link has no level correction element at all */
+		if (!VF_THOROUGH && !(variant == 0 || variant == 5 || ((variant == 6 || variant == 7) && (pol == P_INTERNAL || pol == P_GENERAL)) || ((variant == 4 || variant == 1 || variant == 8) && pol == P_INTERNAL) || (variant == 1 && pol == P_GENERAL) || (variant == 2 && pol == P_KEY))) continue;   /* variant 1: the first link has no level correction element at all */
 		for (part = 0; part < 3; part++) {
 			world_t w;
 			const unsigned char *dh;
